@@ -319,7 +319,7 @@ func TestC19(t *testing.T) {
 	// and 1..100 encoded leading blanks in front of it (decode-step and buffer bounds)
 	var longs []string
 	for _, sc := range c19Schemes {
-		for _, n := range []int{1, 5, 20, 21, 22, 24, 25, 28, 29, 30, 31, 32, 33, 59, 60, 61, 62, 63, 64, 65, 100} {
+		for _, n := range []int{1, 5, 20, 21, 22, 24, 25, 28, 29, 30, 31, 32, 33, 59, 60, 61, 62, 63, 64, 65, 100, 300, 1100, 5000} {
 			for _, ig := range []string{"\x00", "\n", "&#0;", "&#10;", "&#x0A;"} {
 				run := strings.Repeat(ig, n)
 				for gap := 1; gap < len(sc); gap += 3 {
